@@ -422,8 +422,9 @@ class ParserIR:
     source: str = ""
 
 
-def extract_parser(path: str, class_name: Optional[str] = None) -> ParserIR:
-    src = open(path, encoding="utf-8").read()
+def extract_parser(path: str, class_name: Optional[str] = None, src: Optional[str] = None) -> ParserIR:
+    if src is None:
+        src = open(path, encoding="utf-8").read()
     mod = ast.parse(src)
     cls = None
     for n in mod.body:
